@@ -30,7 +30,7 @@ CASE_TIMEOUT = {'quick': 120, 'thorough': 300}
 
 
 def n_cases(tier):
-    return 400 if tier == 'quick' else 6000
+    return 400 if tier == 'quick' else 15000
 
 
 class UF(object):
